@@ -7,7 +7,7 @@ use linfa::{
     traits::{Predict, PredictInplace},
     ParamGuard,
 };
-use ndarray::{Array1, Array2, ArrayBase, ArrayView1, ArrayView2, Data, Ix1, Ix2};
+use ndarray::{Array1, Array2, ArrayBase, ArrayView1, ArrayView2, Axis, Data, Ix1, Ix2};
 use std::cmp::Ordering;
 
 use super::error::{Result, SvmError};
@@ -162,6 +162,20 @@ pub fn fit_nu<F: Float>(
         .collect();
     res.rho /= r;
     res.obj /= r * r;
+
+    // `solve` selected the support vectors with the unscaled coefficients; `weighted_sum` pairs them
+    // with the rescaled coefficients above the same threshold, so select them again
+    if let SeparatingHyperplane::WeightedCombination(_) = res.sep_hyperplane {
+        let support = res
+            .alpha
+            .iter()
+            .enumerate()
+            .filter(|(_, a)| a.abs() > F::cast(100.) * F::epsilon())
+            .map(|(i, _)| i)
+            .collect::<Vec<_>>();
+        res.sep_hyperplane =
+            SeparatingHyperplane::WeightedCombination(dataset.select(Axis(0), &support));
+    }
 
     res
 }
